@@ -74,7 +74,7 @@ template<class Graph> struct Run {
             if (positional) for (auto &sl : slots) if (!sl.empty()) cycles.push_back(sl);
             for (auto &cyc : cycles) { std::vector<long> idx; for (auto &e : cyc) idx.push_back(b.idx(e)); out.push_back(J().s("e", "Emit").arr("cyc", idx).str()); }
             long ri, fr; scaled((double) ret, in.den, ri, fr);
-            out.push_back(J().s("e", "Return").i("ret", ri).i("frac", fr).i("tol", 0).str());
+            out.push_back(J().s("e", "Return").i("ret", ri).i("frac", fr).i("tol", 0).i("ncyc", (long) cycles.size()).str());
         } catch (const std::exception &ex) {
             for (auto &cyc : cycles) { std::vector<long> idx; for (auto &e : cyc) idx.push_back(b.idx(e)); out.push_back(J().s("e", "Emit").arr("cyc", idx).str()); }
             out.push_back(J().s("e", "Threw").s("what", ex.what()).str());
@@ -86,6 +86,8 @@ template<class Graph> struct Run {
 
     static void all(const InGraph &in, const std::string &algo, const char *wt, long k, const std::vector<Sched> &scheds, int nrandom, int max_regions, uint64_t seed) {
         Built<Graph> b; build(in, b);
+        std::string extra_meta;      // key=value tokens of the input line are passed through (fam / gid tags of the History stage)
+        for (auto &t : in.extra) { auto kv = split(t, '='); if (kv.size() == 2) extra_meta += ",\"" + kv[0] + "\":" + kv[1]; }
         std::set<std::string> seen;
         long execs = 0, distinct = 0, splits = 0, steals = 0, targeted = 0, target_hit = 0;
         std::set<std::string> used_scheds;
@@ -96,7 +98,7 @@ template<class Graph> struct Run {
             if (!seen.insert(key).second) return;
             distinct++;
             J c; c.s("e", "Call").s("algo", algo).s("wt", wt).i("id", in.id).i("n", in.n).raw("edges", edges_json(in)).i("den", in.den).i("k", k).i("tol", 0)
-                  .raw("meta", "{\"sched\":\"" + sched_desc + "\"}");
+                  .raw("meta", "{\"sched\":\"" + sched_desc + "\"" + extra_meta + "}");
             emit(c.str());
             for (auto &l : beh) emit(l);
         };
